@@ -8,6 +8,7 @@ import (
 	"math/big"
 	"regexp"
 	"strings"
+	"sync"
 	"testing"
 
 	msg4 "github.com/goblimey/go-ntrip/rtcm/type_msm4/message"
@@ -197,7 +198,23 @@ func build(c Case) (*cellAPI, error) {
 	return &cellAPI{cell.RangeInMetres, cell.PhaseRange, nil, nil, cell.GetAggregateRange, cell.GetAggregatePhaseRange, nil, cell.String, s.String, lambda}, nil
 }
 
+var foreignFirst sync.Once
+
 func check(c Case, o *stats.Obs) error {
+	// In the first-use legs the very first thing the process decodes is an MSM7 of a constellation the
+	// wavelength table does not cover (QZSS, SBAS, NavIC) carrying the same signal id - a client that joins the
+	// stream just before that message.
+	if stats.FirstUse() {
+		foreignFirst.Do(func() {
+			for _, typ := range []int{1117, 1107, 1137} {
+				fm := enc.MSM{Type: typ, StationID: 1, Timestamp: 1000, SatMask: 1 << 63, SigMask: 1 << (32 - c.SignalID), CellMask: []bool{true},
+					Sats: []enc.SatCell{{Whole: 70, Frac: 1}}, Sigs: []enc.SigCell{{RangeDelta: 1, PhaseDelta: 1, Lock: 1, CNR: 30}}}
+				if d, err := msg7.GetMessage(fm.Frame(), slog.LevelInfo); err == nil && d != nil {
+					_ = d.String()
+				}
+			}
+		})
+	}
 	api, err := build(c)
 	if err != nil {
 		o.Key = "decode"
